@@ -168,3 +168,26 @@ Definition raw_case (t : ty) (obs : list (Z * Z * Z)) (obs_sizeof : Z) : list Z 
                 end in
   let size_ok := if is_fixed t then obs_sizeof =? size t else true in
   if triples_eqb expect obs && size_ok then [] else [88; b2z size_ok; size t] ++ flat3 expect.
+
+From Prophy Require Import ApiSpec.
+
+(* C10 / C11: a history of API operations on two fresh messages; obs = per step
+   (exception code, observed state of a, observed state of b); exception codes: 0 none,
+   1 ProphyError, 5 IndexError, 6 ValueError, 9 anything else. Result: [] when every step agrees,
+   else [step index; model's code; a_equal; b_equal] of the first disagreement. *)
+Definition ares_code (r : ares) : Z :=
+  match r with ADone _ => 0 | ARaise EProphy => 1 | ARaise EIndex => 5 | ARaise EValue => 6 | AStuck => 7 end.
+
+Fixpoint api_history (t : ty) (st : value * value) (k : Z) (hs : list hop) (obs : list (Z * value * value)) : list Z :=
+  match hs, obs with
+  | h :: hr, (c, oa, ob) :: or =>
+      let '(st', r) := hstep t st h in
+      let ea := value_eqb (fst st') oa in
+      let eb := value_eqb (snd st') ob in
+      if (ares_code r =? c) && ea && eb then api_history t st' (k + 1) hr or
+      else [k; ares_code r; b2z ea; b2z eb]
+  | _, _ => []
+  end.
+
+Definition api_history_case (t : ty) (hs : list hop) (obs : list (Z * value * value)) : list Z :=
+  api_history t (default t, default t) 0 hs obs.
